@@ -444,13 +444,13 @@ def limit_cases(rng, tier, consts=None):
         s, l = small(sizes), large(sizes)
         return sorted(rng.sample(s, min(len(s), k_small)) + rng.sample(l, min(len(l), k_large)))
     for name, fn in DEPTH_TEMPLATES:
-        for n in pick(depths, 12, 3):
+        for n in pick(depths, 20, 4):
             if n < 2:
                 continue
             code, calls = fn(n)
             cases.append(mk(code, calls, [], "limit:depth:%s:%d(%s)" % (name, n, depths[n]), rng))
     # far beyond any constant of the tree, well inside what CPython itself allows (powers of two and of ten a
-    # buffer or a cut-off would plausibly use; recursion stays at half of CPython's default limit)
+    # buffer or a cut-off would plausibly use; recursion stays clear of CPython's default limit of 1000, the sandbox's own frames included)
     for name, fn, sizes in [("deep-ok", t_deep_ok, BIG_DEPTHS), ("recursive-sum", t_recursive_sum, BIG_DEPTHS),
                             ("call-depth", t_call_depth, BIG_DEPTHS)]:
         for n in (sizes if tier != "quick" or name == "deep-ok" else [rng.choice(sizes)]):
@@ -462,16 +462,16 @@ def limit_cases(rng, tier, consts=None):
             code, calls, inputs = fn(n)
             cases.append(mk(code, calls, inputs, "limit:count:%s:%d(big)" % (name, n), rng))
     for name, fn in COUNT_TEMPLATES:
-        for n in pick(counts, 5, 2):
+        for n in pick(counts, 8, 3):
             code, calls, inputs = fn(n)
             cases.append(mk(code, calls, inputs, "limit:count:%s:%d(%s)" % (name, n, counts[n]), rng))
     for name, fn in ODD_TEMPLATES:
-        pool = ODD if tier != "quick" else ODD[:6] + rng.sample(ODD[6:], 8)
+        pool = ODD if tier != "quick" else ODD[:6] + rng.sample(ODD[6:], 16)
         for tag, s in pool:
             code, calls, inputs = fn(s)
             cases.append(mk(code, calls, inputs, "odd:%s:%s" % (name, tag), rng))
     env = {"__builtins__": {}}
-    for tag, s in (ODD_REPLY if tier != "quick" else rng.sample(ODD_REPLY, 8)):
+    for tag, s in (ODD_REPLY if tier != "quick" else rng.sample(ODD_REPLY, 12)):
         code, calls, _ = o_reply(s)
         reply = eval("'x%sy%s'" % (s, s), env)
         cases.append(mk(code, calls, [reply], "odd:reply:%s" % tag, rng))
